@@ -13,6 +13,10 @@ CHECKS = {
   text="Property-based testing over generated multi-processor machines, stimuli, seeded schedule perturbation (verif-tagged yield hook, GOMAXPROCS 1..16) and concurrency plans (copies of the same machine sharing one Bondmachine, different machines, concurrent SinglePipelineSimulate): the per-tick digest of the complete VM state must equal the solo unperturbed run; the same binary runs under the Go race detector (a report is a violation). Exploration of schedules, not exhaustive. Found D7 and D11 (both fixed in /repo).",
   note="Trusted: digest covers processors' PC/registers/memory/ports/flags/deferred and extra state and all bond registers; the race detector; schedules the hook and GOMAXPROCS cannot provoke are not explored.",
   technique="property-based testing (rapid) with injected-yield schedule fuzzing, differential against the solo run, plus the race detector as sanitizer"),
+ "C14": dict(
+  text="Property-based testing of the quantum front-end through its public path: generated circuits (n=1..5, every gate alias, arbitrary distinct qubit arguments, packed layers) are compiled by QasmToBmMatrices and compared with an independently written reference unitary (textbook gate tables embedded by bit manipulation); every emitted matrix must be unitary and RunSoftwareSimulation must map each basis state to the reference column. Plus a bounded-exhaustive sweep of every single-gate placement for n<=5. Found the displaced-argument defect (fixed in /repo).",
+  note="Trusted: the reference tables in harness/c14/ref.go and the qubit-order convention (first declared = MSB, cx a,b controls on a) taken from the README example; float32 tolerance 1e-4 per emitted matrix.",
+  technique="property-based testing (rapid) against a reference model + bounded-exhaustive placement enumeration"),
  "C17": dict(
   text="Property-based testing over generated machines and batch plans (sequential and concurrent callers of SinglePipelineSimulate / Fitness_default): goroutine accounting after a settle loop must not grow with the number of finished simulations. Exploration; found D9 (fixed in /repo).",
   note="Trusted: runtime.NumGoroutine and the settle loop; retained heap is reported only through the goroutine count (a leaked worker pins its VM).",
@@ -31,7 +35,6 @@ PENDING = {
  "C11": "check under construction (planned: save/load round-trip with reflection walk)",
  "C12": "check under construction (planned: Go-subset evaluator vs compiled machine, termination under forced schedules)",
  "C13": "check under construction (planned: LIFO/FIFO HDL vs abstract sequence under generated agents)",
- "C14": "check under construction (planned: reference unitary vs emitted matrices)",
  "C15": "check under construction (planned: rule print/parse round-trip + trace predictor)",
  "C16": "check under construction (planned: independent well-formedness validator over front-end outputs)",
  "C18": "check under construction (planned: lint of generated file sets with /verif's Verilog front end)",
